@@ -22,6 +22,7 @@ META = {
     "assumptions": [],
 }
 META["claim"] += " " + "Also: status tokens that merely begin with 101, interim 1xx heads carrying the upgrade headers, a required header's text smuggled into an over-long unrelated line at power-of-two offsets, and the wait for the response ended from outside (KeyboardInterrupt) at every byte."
+META["claim"] += " " + 'Round 4: offered subprotocols as list, tuple, iterator and generator (one-shot iterables judged in the reject direction only).'
 
 STATUSES = [100, 101, 101, 101, 101, 200, 204, 300, 304, 400, 401, 403, 404, 426, 500, 503, 999, "1015", "1010", "101x", "0101", "101.0", "10", "1101", "102", "103"]
 UPGRADE = [("websocket", True), ("WebSocket", True), ("websocket, foo", True), ("foo,websocket", True), ("  websocket  ", True),
